@@ -12,7 +12,8 @@ PAYLOADS_OVERRIDE = None
 def gen_msg(rng, small=True):
     if PAYLOADS_OVERRIDE is not None:
         return "%s %s" % (bstr(rng.choice(TIPS[:1] if small else TIPS)), bstr(rng.choice(PAYLOADS_OVERRIDE)))
-    pl = PAYLOADS[:3] if small else PAYLOADS
+    # the small alphabet: three short payloads and, less often, the two long ones that differ only in their tail
+    pl = (PAYLOADS[:3] * 2 + PAYLOADS[-2:]) if small else PAYLOADS
     return "%s %s" % (bstr(rng.choice(TIPS[:1] if small else TIPS)), bstr(rng.choice(pl)))
 
 
@@ -246,13 +247,21 @@ def gen_fanin_base(rng):
     placement = [rng.randrange(nnodes) for _ in range(nprocs)]
     lines = ["NODE %d 0" % n for n in range(nnodes)]
     pls = list(PAYLOADS)
+    # "longpair": the two long payloads that differ only in their tail travel together, and the sink answers every
+    # input alike: states then differ ONLY in the tail of a long payload (in a pending event or not at all)
+    longpair = rng.random() < 0.4
     for p in range(nsend):
         rng.shuffle(pls)
         k = rng.choice([3, 3, 4]) if nsend == 1 else rng.choice([2, 3])
-        acts = ["S %d %s %s" % (sink, bstr(TIPS[0]), bstr(pls[i % len(pls)])) for i in range(k)]
+        if longpair and p == 0:
+            chosen = [PAYLOADS[-2], PAYLOADS[-1]] + pls[:k - 2]
+            rng.shuffle(chosen)
+        else:
+            chosen = [pls[i % len(pls)] for i in range(k)]
+        acts = ["S %d %s %s" % (sink, bstr(TIPS[0]), bstr(c)) for c in chosen]
         lines.append("PROC %d %d 1 0 0 1" % (p, placement[p]))
         lines.append("ROW %d %d %s" % (p, len(acts), " ".join(acts)))
-    nrows = rng.choice([2, 3, 3])
+    nrows = 1 if longpair else rng.choice([2, 3, 3])
     lines.append("PROC %d %d 1 2 0 %d" % (sink, placement[sink], nrows))
     outs = list(PAYLOADS[:3])
     rng.shuffle(outs)
@@ -265,6 +274,51 @@ def gen_fanin_base(rng):
             "netops": False, "mf": False, "stateless": False, "sink": True, "fanin": True}
     preds = ["PRED INV NONE", "PRED GOAL NOEVENTS", "PRED PRUNE NONE", "PRED COLLECT NONE"]
     return {"sys": lines, "cb": cb, "preds": preds, "feat": feat, "nprocs": nprocs, "nnodes": nnodes}
+
+
+def script_row(idx, key, nrows, stateless):
+    """the row the table-driven process selects (harness/src/script_proc.rs, Model/Script.v)"""
+    h = 0 if stateless else (idx * 31) % (1 << 32)
+    for c in key:
+        h = (h * 131 + c) % (1 << 32)
+    return h % nrows
+
+
+def gen_relay_longpair_base(rng):
+    """a sender emits the two long payloads that differ only in their tail to a STATELESS relay, which forwards each to
+    a stateless sink: after both were relayed (in either order) the pending events are {id 2, id 3} with the two
+    payloads swapped - two states that differ only in the tails of long payloads under equal ids"""
+    nnodes = rng.choice([1, 2, 3])
+    placement = [rng.randrange(nnodes) for _ in range(3)]
+    la, lb = PAYLOADS[-2], PAYLOADS[-1]
+    tip = TIPS[0]
+    lines = ["NODE %d 0" % n for n in range(nnodes)]
+    first = [la, lb]
+    rng.shuffle(first)
+    lines.append("PROC 0 %d 1 0 0 1" % placement[0])
+    lines.append("ROW 0 2 S 1 %s %s S 1 %s %s" % (bstr(tip), bstr(first[0]), bstr(tip), bstr(first[1])))
+    # the relay's two rows, placed so that the row selected for input X forwards X
+    def key(data):
+        return [1, 0] + list(tip) + [256] + list(data)
+    ra, rb = script_row(0, key(la), 2, True), script_row(0, key(lb), 2, True)
+    lines.append("PROC 1 %d 1 2 0 2" % placement[1])
+    if ra != rb:
+        rows = {ra: la, rb: lb}
+        for r in (0, 1):
+            lines.append("ROW 1 1 S 2 %s %s" % (bstr(tip), bstr(rows[r])))
+    else:
+        # both inputs select the same row: forward the pair in a fixed order instead (still converging)
+        for r in (0, 1):
+            lines.append("ROW 1 2 S 2 %s %s S 2 %s %s" % (bstr(tip), bstr(la), bstr(tip), bstr(lb)))
+    lines.append("PROC 2 %d 1 2 0 1" % placement[2])
+    lines.append("ROW 2 1 L %s %s" % (bstr(tip), bstr(PAYLOADS[0])))
+    lines.append("NET 0 0 0 %d %d" % (f64_bits(1.0), f64_bits(1.0)))
+    lines += clock_lines([0.0])
+    cb = ["CB LOCAL %d 0 %s" % (placement[0], gen_msg(rng))]
+    feat = {"timers": False, "override": False, "clock": False, "drop": False, "dupl": False, "corrupt": False, "crash": False,
+            "netops": False, "mf": False, "stateless": False, "sink": True, "fanin": True, "longpair": True}
+    preds = ["PRED INV NONE", "PRED GOAL NOEVENTS", "PRED PRUNE NONE", "PRED COLLECT NONE"]
+    return {"sys": lines, "cb": cb, "preds": preds, "feat": feat, "nprocs": 3, "nnodes": nnodes}
 
 
 def gen_crash_base(rng):
